@@ -54,6 +54,7 @@ var properties = map[string]*Property{
 		NotCovered: []string{
 			"the closures for non-variable places (place_ops.go, place_set.go, place_shifts.go) and for shift-assignments on variables (var_shifts.go), varQuoPow2: only their dispatch is under contract",
 			"IncDec, multi-assignment phase discipline (assign2, assignMulti), blank identifier",
+			"statement returns delegated to varSetZero (x *= 0, x %= 1, x &= 0 on integers) are not linked to the zero value; varQuoPow2",
 			"composition with the rest of the program (paper induction, DESIGN.md 4.6)",
 		},
 	},
